@@ -44,7 +44,7 @@ impl Prop for C18 {
             .boxed()
     }
     fn cases(&self, tier: Tier, _build: &str) -> u32 {
-        if tier == Tier::Quick { 1_600 } else { 40_000 }
+        if tier == Tier::Quick { 4_000 } else { 40_000 }
     }
     fn assumptions(&self) -> Vec<String> {
         vec!["thread interleavings are chosen by the OS scheduler: sampled, not enumerated".into()]
